@@ -414,22 +414,25 @@ def _r3(ctx):
     prog = ctx.prog
     ctx.rule("R-C18-3", floor=2, what="TS = TN^(1/(-slope)) agrees with the Woehler accessor's TS = TN^(1/k_1), k_1 = -slope")
     f = prog.func(PKG + "elementary:Elementary._pearl_chain_method")
+    from ..absint import Interp, TermDomain, Seq, term_alternatives, term_to_ast as _t2a
     ret = [s for s in f.node.body if isinstance(s, ast.Return)]
-    if not (ret and isinstance(ret[-1].value, ast.Tuple) and len(ret[-1].value.elts) == 2 and
-            all(isinstance(x, ast.Name) for x in ret[-1].value.elts)):
+    val = Interp(prog, TermDomain(), follow=lambda c_: False).run(f, [("p", q) for q in f.params if q != "self"])
+    alts = [a_ for a_ in term_alternatives(val) if isinstance(a_, Seq) and len(a_) == 2]
+    if len(alts) != 1 or not ret:
         raise AnalysisError("_pearl_chain_method: (TN, TS) return not found")
-    tn_name, ts_name = (x.id for x in ret[-1].value.elts)
-    ts = [s for s in f.node.body if isinstance(s, ast.Assign) and isinstance(s.targets[0], ast.Name) and s.targets[0].id == ts_name]
-    if len(ts) != 1:
-        raise AnalysisError("_pearl_chain_method: TS definition not found")
+    tn_t, ts_t = alts[0]
+    ts = [ret[-1]]
 
-    def atom(e):
-        if is_self_attr(e, "_slope"):
-            return "slope"
-        if isinstance(e, ast.Name):
-            return "TN" if e.id == tn_name else e.id
-        return None
-    got = to_nf(ts[0].value, atom=atom)
+    def with_tn(t):
+        if t == tn_t:
+            return ("p", "TN")
+        if isinstance(t, tuple) and len(t) == 2 and t[0] == "self" and t[1] == "_slope":
+            return ("p", "slope")
+        return tuple(with_tn(x) if isinstance(x, tuple) else x for x in t) if isinstance(t, tuple) else t
+    try:
+        got = to_nf(_t2a(with_tn(ts_t)), atom=lambda e: e.id if isinstance(e, ast.Name) else None)
+    except (NFUnsupported, ValueError) as e:
+        raise AnalysisError("_pearl_chain_method: TS outside the fragment: %s" % e)
     from .c08 import scatter_table
     from ..absint import term_to_ast
     v, table, is_tn, is_ts = scatter_table(prog)
@@ -462,7 +465,7 @@ def _r3(ctx):
         a_tn, a_ts = (x.id for x in unp[0].targets[0].elts)
         m = {const_value(k): v for k, v in zip(d[0].keys, d[0].values)}
         try:
-            ok = to_nf(m["k_1"], atom=atom) == k1 and isinstance(m["TN"], ast.Name) and isinstance(m["TS"], ast.Name) and \
+            ok = to_nf(m["k_1"], atom=lambda e: "slope" if is_self_attr(e, "_slope") else None) == k1 and isinstance(m["TN"], ast.Name) and isinstance(m["TS"], ast.Name) and \
                 m["TN"].id == a_tn and m["TS"].id == a_ts
         except (KeyError, NFUnsupported):
             ok = False
